@@ -59,6 +59,12 @@ def prover_message_slot(ctx, body, fields, d):
                 sv = strip(sv[1])
             if vec is not None and sv is vec:
                 return slot
+            # stored: vec of already-compressed points, the very value that is absorbed being pushed
+            sm = stored
+            while sm.tag == 'map':
+                sm = sm[1]
+            if sm.tag == 'mut' and any(e.tag == 'ev' and e[2].endswith('::push') and e[3] and strip(e[3][0]) is comp[0] for e in sm[2]):
+                return slot
         else:
             st = strip(stored)
             if st.tag == 'call' and st[1].endswith('Compressable::compress'):
